@@ -88,9 +88,15 @@ TEXT['C02'] = dict(
          'quick: production orderings + a seeded sample) with symbolic extents, process counts and rank coordinates; the contract '
          'is the property: ranges tile [0,n) in rank order, lengths in {n//p, n//p+1} and >= 1, starts/ends/shape/size/'
          'max_block_shape (an attained upper bound)/fullShape/inverse ordering agree. The bounded part checks the Grid accessors '
-         'and buffer sizes on simulated process grids and the partition exhaustively on a box.',
-    note=PROOF_NOTE + 'Grid accessors and "buffers of bufferSize suffice" are covered by the bounded part (and, for the transposes, '
-         'by the C01/C03/C04 checks); found and fixed Grid.getEta (fix: 8880526).',
+         'and buffer sizes on simulated process grids and the partition exhaustively on a box. "Buffers of bufferSize suffice": '
+         'LayoutHandler.__init__ is executed symbolically (the real Layout constructor inside, for every layout of the production '
+         '4-D and 3-D layout sets and the process-grid patterns >1/=1) and shown to leave bufferSize >= the first layout size and '
+         '>= p padded blocks for every compatible pair - exactly the buffer precondition of the C01 transpose proofs; lemma '
+         'block_fits_padded (each layout block fits into the p padded blocks of a transpose it takes part in) is proved.',
+    note=PROOF_NOTE + 'Grid accessors are covered by the bounded part and, where the operators use them, executed inside the C05 '
+         'wiring proofs; _makeConnectionMap is abstract in the constructor proof (returns "all connected"); the reverse direction of '
+         'a pair uses the same multiset of extents (by the equal local extents of equal dimensions, a precondition of C01). Found '
+         'and fixed Grid.getEta (fix: 8880526).',
     technique='symbolic execution of the constructor per structural case, expression arrays for the numpy formula, z3 (div/mod)')
 TEXT['C03'] = dict(
     category='proof',
